@@ -333,7 +333,7 @@ def check(pid, tier, seed, replay=None):
             print(f"KNOWN-FINDING: property={pid} {matched['what']}")
             shutil.rmtree(rp, ignore_errors=True)
             continue
-        if info["seed"] is not None:
+        if info["seed"] is not None and not prop.get("nondeterministic"):
             shutil.rmtree(os.path.join(CACHE, "corpus", sh, f"{info['corpus']}_{info['seed']}_1_{P.steps_for(info['corpus'], tier)}"), ignore_errors=True)
             d = gen_corpus(binpath, sh, info["corpus"], info["seed"], 1, P.steps_for(info["corpus"], tier))
             _, v2, e2 = validate_traces(sorted(glob.glob(d + "/*.ndjson")), prop["invariants"], prop["properties"])
